@@ -9,13 +9,18 @@ from harness import common
 from harness.common import z, zlist
 
 CASES = []
+ERRORS = []
 
 
-def _tree(rec):
+def _lit(rec):
     kids = [c for c in rec.children[2:] if c.is_dir()]
     name = rec.file_ident if not rec.is_root else b'\x00'
     blocks = (rec.data_length + 2047) // 2048
-    return 'Node %s %s [%s]' % (zlist(name), z(blocks), '; '.join(_tree(k) for k in kids)), 1 + sum(_count(k) for k in kids)
+    return 'Node %s %s [%s]' % (zlist(name), z(blocks), '; '.join(_lit(k) for k in kids))
+
+
+def _tree(rec):
+    return _lit(rec), _count(rec)
 
 
 def _count(rec):
@@ -44,15 +49,19 @@ def collect(b):
         for vd in [iso.pvd] + ([iso.joliet_vd] if iso.joliet_vd is not None else []):
             root = vd.root_directory_record()
             lit, n = _tree(root)
-            if n > 120:
+            if n > 400:
                 continue
             recs = _parse_table(b.img, vd.path_table_location_le, vd.path_tbl_size)
             CASES.append((lit, root.extent_location(), recs, n))
-    except Exception:
-        pass
+    except Exception as e:
+        ERRORS.append(repr(e))
 
 
 def flush(ctx):
+    if ERRORS:
+        ctx.count('ptable:collect-errors', len(ERRORS))
+        ctx.broken.append({'name': 'correspondence:ptableleaf', 'summary': 'collecting path tables failed: ' + ERRORS[0]})
+        del ERRORS[:]
     if not CASES:
         return
     items = CASES[:60 if ctx.tier == 'quick' else 400]
